@@ -377,3 +377,11 @@ def sweep(res, ctx, st):
                     what, row = check_security(res, r, "FOO", so, st)
                     if what:
                         res.violation("failing-input", "sweep: " + what, {"input": r["hc"], "row": row})
+
+
+def replay(res, ctx, path):
+    import renderoracle
+    def judge(r):
+        stat, probs = renderoracle.check_run(r)
+        return [m for _, m in probs] if stat == "ok" else []
+    return corecheck.replay(res, ctx, path, judge=judge)
